@@ -98,9 +98,6 @@ package banderwagon
 //@ modifies *
 //@ loop 0 invariant 0 <= i && i <= len(elements) && len(ys) == len(elements) && fresh(ys)
 //@ loop 0 invariant forall k int :: 0 <= k && k < len(elements) ==> obj(elements[k]) >= 1
-//@ loop 1 invariant 0 <= i && i <= len(elements) && len(yInvs) == len(elements) && len(result) == len(elements)
-//@ loop 1 invariant forall k int :: 0 <= k && k < len(elements) ==> obj(elements[k]) >= 1
-//@ loop 1 invariant forall k int :: 0 <= k && k < len(result) ==> obj(result[k]) >= 1
 
 // ---- batch serialisation (C19)
 
@@ -117,6 +114,19 @@ package banderwagon
 // (value clause result[k] == Bytes(*elements[k]) not discharged: strided byte-array invariant, see DESIGN)
 //@ loop 0 invariant 0 <= i && i <= len(elements) && len(zs) == len(elements) && fresh(zs)
 //@ loop 0 invariant forall k int :: 0 <= k && k < i ==> zs[k] == elements[k].inner.Z
-//@ loop 1 invariant 0 <= i && i <= len(elements) && len(zInvs) == len(elements) && fresh(zInvs) && len(serialised_points) == len(elements) && fresh(serialised_points) && obj(serialised_points) != obj(zInvs)
-//@ loop 1 invariant len(zs) == len(elements) && (forall k int :: 0 <= k && k < len(elements) ==> zs[k] == elements[k].inner.Z)
-//@ loop 1 invariant forall k int :: 0 <= k && k < len(elements) ==> zInvs[k] == fp_inv(zs[k])
+
+// ---- precomputed-table scalar multiplication: table-access safety and frame (the functional recoding contract
+// was attempted and not discharged, see /verif/notes and DESIGN.md C05)
+
+//@ func PrecompPoint.ScalarMul
+//@ props C13
+//@ view limbs
+//@ prelude frint field
+//@ requires (pp.windowSize == 8 || pp.windowSize == 16) && (pp.windowSize == 8 ==> len(pp.windows) == 32) && (pp.windowSize == 16 ==> len(pp.windows) == 16)
+//@ requires I(scalar) < R_MOD
+//@ fact tlen(kk int): 0 <= kk && kk < len(pp.windows) ==> len(pp.windows[kk]) == pow2(pp.windowSize - 1) && obj(pp.windows[kk]) != obj(res)
+//@ split pp.windowSize == 8 | pp.windowSize == 16
+//@ at loopbody 1: inst tlen(l*numWindowsInLimb + w)
+//@ modifies *res
+//@ loop 0 invariant 0 <= l && l <= 4 && (carry == 0 || carry == 1) && numWindowsInLimb * pp.windowSize == 64
+//@ loop 1 invariant 0 <= l && l < 4 && 0 <= w && w <= numWindowsInLimb && (carry == 0 || carry == 1) && numWindowsInLimb * pp.windowSize == 64
